@@ -11,10 +11,13 @@ import (
 func (p *Parser) getToken() {
 	if p.ungetFlg {
 		p.ungetFlg = false
+		p.isReplayedToken = true
 		p.Lexer.IsSpace = p.Lexer.IsSpacePrev
 
 		return
 	}
+
+	p.isReplayedToken = false
 
 	if p.Lexer.Advance() {
 		p.token = p.Lexer.Token()
@@ -99,13 +102,11 @@ func (p *Parser) Read() (*base.T, error) {
 		stringValue := p.Lexer.Value().(string)
 		t = base.MakeString(stringValue)
 
-		if p.BeforeString != stringValue {
-			// Count newlines in string and increment p.Row accordingly
-			newlineCount := strings.Count(stringValue, "\n")
-			p.Row += newlineCount
+		// the newlines inside a string literal advance the row once: when the
+		// token is lexed, not when it is read again after Unget
+		if !p.isReplayedToken {
+			p.Row += strings.Count(stringValue, "\n")
 		}
-
-		p.BeforeString = stringValue
 
 	case base.NIL:
 		t = base.MakeNil()
